@@ -315,6 +315,37 @@ def fam_leak(seed, big):
     return out
 
 
+def fam_eofrace(seed, big):
+    """C08: end-of-file reaches a living command as soon as the parent closes its end, while another thread is in the
+    middle of a launch -- one that succeeds, or fails in one of the ways a launch can fail"""
+    out = []
+    busy = os.path.join(SP, "busy-script")
+    with open(busy, "w") as f:
+        f.write("#!/bin/sh\nexit 0\n")
+    os.chmod(busy, 0o755)
+    noexec = os.path.join(SP, "noexec")
+    with open(noexec, "w") as f:
+        f.write("#!/bin/sh\n")
+    os.chmod(noexec, 0o644)
+    garbage = os.path.join(SP, "garbage")
+    with open(garbage, "wb") as f:
+        f.write(b"\x01\x02\x03 not an executable\n")
+    os.chmod(garbage, 0o755)
+    menu = [("ok", vargv("@script", "x0"), None), ("enoent", [hx("/no/such/program")], None),
+            ("etxtbsy", [hx(busy)], hx(busy)), ("eacces", [hx(noexec)], None), ("enoexec", [hx(garbage)], None),
+            ("enotdir", [hx(VCHILD + "/x")], None)]
+    i = 0
+    for name, argv, hold in menu:
+        for delay in ((0, 300, 5000) if big else (300, 5000)):
+            for rep in (1, 3):
+                sc = {"id": "er%d-%s" % (i, name), "class": "eof-race", "argv": argv, "delay_us": delay, "repeat": rep}
+                if hold:
+                    sc["hold_write"] = hold
+                out.append(sc)
+                i += 1
+    return out
+
+
 def fam_signals(seed, big):
     """C18: every blockable signal alone, random subsets, parent SIGPIPE ignored (Rust default) or default"""
     rng = random.Random(seed * 47 + 18)
@@ -370,6 +401,34 @@ def fam_path(seed, big):
                 # longer than std's 384-byte on-stack buffer for C strings
                 name = os.path.join("L" * 200 + str(j), "M" * 230)
                 k = k[5:]
+            if k.startswith("toolong-"):
+                # an entry so long that <entry>/<cmd> exceeds PATH_MAX: it names nothing (ENAMETOOLONG) and is skipped.
+                # Cut off after T bytes, however, the candidate (toolong-file@T) or the entry itself (toolong-dir@T)
+                # would name a program that must not run.
+                what, T = k[8:].split("@")
+                T = int(T)
+                d = os.path.join(base, name)
+                os.makedirs(d)
+                if what == "file":
+                    tail = "/decoy%d" % T
+                else:
+                    tail = "/ddir%d" % T
+                fill = T - len(os.fsencode(d)) - len(tail)
+                assert fill >= 0
+                pfx = d + "/." * (fill // 2) + "/" * (fill % 2) + tail
+                assert len(os.fsencode(pfx)) == T
+                if what == "file":
+                    os.link(VCHILD, os.path.join(d, tail[1:]))
+                    entry = pfx + "/" + "j" * 200
+                else:
+                    os.makedirs(os.path.join(d, tail[1:]))
+                    os.link(VCHILD, os.path.join(d, tail[1:], cmd))
+                    entry = pfx + "j" * 200
+                while len(os.fsencode(entry)) + 1 + len(cmd) < 4200:
+                    entry += "/" + "j" * 200
+                dirs.append(entry)
+                kinds.append("toolong")
+                continue
             d = os.path.join(base, name)
             os.makedirs(d)
             tgt = os.path.join(d, cmd)
@@ -435,6 +494,14 @@ def fam_path(seed, big):
     mk(["nonutf8-missing", "ok"], "cmd12")
     mk(["nonutf8-ok"], "cmd12")
     mk(["nonutf8-noexec", "nonutf8-missing", "nonutf8-ok"], "cmd12")
+    # entries longer than PATH_MAX name nothing; cut off at a "natural" length they would name a program that must not run
+    for T in (4095, 4096, 4094, 1023, 1024, 255, 256, 2047, 2048):
+        for what in ("file", "dir"):
+            if not big and T not in (4095, 4096, 1024, 255) :
+                continue
+            mk(["toolong-%s@%d" % (what, T), "ok"], "cmd13")
+            mk(["missing", "toolong-%s@%d" % (what, T)], "cmd13")
+    mk(["toolong-file@4095", "toolong-dir@4096", "toolong-file@1024", "noexec", "ok"], "cmd13")
     # executable override goes through the same lookup
     mk(["missing", "ok"], "cmd9", extra={"exe_is_cmd": True})
     # the search uses the PARENT's PATH even when the child gets an environment with another PATH
